@@ -638,5 +638,10 @@ void run_C17(void) {
         if (cfg == DISP_GENERIC && (i & 1)) continue;
         ops_recontent_case("C17 entry points", RNAMES, (int)ARRAY_LEN(RNAMES), RN[i], cfg, G.thorough ? 40 : 6, (unsigned)i, "same_buffers_other_data_calls");
       }
+    // and from a thread with a small stack, at the largest dimensions
+    for (int cfg = DISP_NATIVE; cfg >= DISP_GENERIC; cfg--) {
+      ops_small_stack_case("C17 entry points", RNAMES, (int)ARRAY_LEN(RNAMES), 65536, cfg, 256, G.thorough ? 4 : 1, 0, "small_stack_calls");
+      ops_small_stack_case("C17 entry points", RNAMES, (int)ARRAY_LEN(RNAMES), 16384, cfg, 256, G.thorough ? 4 : 2, 1, "small_stack_calls");
+    }
   }
 }
